@@ -2694,13 +2694,15 @@ class RootTransaction(Transaction):
                 # but left it in place: the database transaction may still
                 # be open
                 self._connection_rollback_impl()
-
+        finally:
+            # whether or not the rollback succeeds, cancel any nested
+            # transactions; they can't outlive this transaction
             if (
                 self.connection._transaction is self
                 and self.connection._nested_transaction
             ):
                 self.connection._nested_transaction._cancel()
-        finally:
+
             if self.is_active or try_deactivate:
                 self._deactivate_from_connection()
             if self.connection._transaction is self:
